@@ -2,12 +2,31 @@ package engs
 
 import (
 	"fmt"
+	"os"
+	"strconv"
 	"path/filepath"
 	"sync"
 	"time"
 
 	"verif/harness/internal/core"
 )
+
+// Par is the parallelism budget of engine S (cores it may keep busy):
+// VERIF_PAR, default 16. Small values (<= 8) also serialise the TLC runs.
+func Par() int {
+	if v, err := strconv.Atoi(os.Getenv("VERIF_PAR")); err == nil && v >= 1 {
+		return v
+	}
+	return 16
+}
+
+func parOf(div, min int) int {
+	n := Par() / div
+	if n < min {
+		n = min
+	}
+	return n
+}
 
 // Result of running a set of types through the whole conformance pipeline.
 type Result struct {
@@ -112,7 +131,7 @@ func (r *Result) BuildAndRun(c *core.Ctx, bin, tag string, o PkgOpts, batch int)
 	built := make([][]*Built, len(batches))
 	errs := make([]error, len(batches))
 	var wg sync.WaitGroup
-	sem := make(chan struct{}, 12)
+	sem := make(chan struct{}, parOf(1, 2)*3/4)
 	for bi := range batches {
 		wg.Add(1)
 		go func(bi int) {
